@@ -341,7 +341,8 @@ pub fn run_history(case: &HCase, focus: Focus, obs: &mut Obs) -> Verdict {
         }
         // ON DUPLICATE KEY UPDATE has recorded defects (no constraint validation, no index
         // maintenance): once one has run successfully, later deviations are consequences of it
-        if matches!(s, Stmt::Upsert { .. }) && e.is_ok() && vcore::kf::open_sigs().iter().any(|k| k.ends_with(".after_upsert")) {
+        // (a failed one may have applied some of its rows before failing, with the same gaps)
+        if matches!(s, Stmt::Upsert { .. }) && vcore::kf::open_sigs().iter().any(|k| k.ends_with(".after_upsert")) {
             if focus == Focus::C15 {
                 if let Some(d) = index_mirror(&db, specs, &live) {
                     report!(Focus::C15, format!("c15.mirror.after_{}", kind), format!("after `{}`: {}", sql, d));
